@@ -21,10 +21,14 @@ RULE = (
 ASSUMPTIONS = ["fake processes in the virtual lane; 'held' = tasks that reached the process factory and whose coroutine has not finished"]
 
 
+QUICK_BUDGET = {"cases": 6000, "deadline_s": 80, "case_timeout_s": 90, "floors": {"spawn_events": 10000, "quiescent_points": 50000, "real_intervals": 20}}
+THOROUGH_FACTOR = 50  # thorough = the same workload with 50x the cases (floors scale along)
+
+
 def budget(tier):
-    if tier == "thorough":
-        return {"cases": 60000, "deadline_s": 600, "case_timeout_s": 60, "floors": {"spawn_events": 100000, "quiescent_points": 500000, "real_intervals": 300}}
-    return {"cases": 6000, "deadline_s": 80, "case_timeout_s": 90, "floors": {"spawn_events": 10000, "quiescent_points": 50000, "real_intervals": 20}}
+    from ..core import scaled_budget
+
+    return scaled_budget(QUICK_BUDGET, tier, THOROUGH_FACTOR, noscale=('real_intervals',))
 
 
 def gen_case(rng, idx, tier):
